@@ -19,5 +19,5 @@ CONSTANTS
   OneShot = FALSE
 VIEW view
 INVARIANTS TypeOK Saved Persist Opens OneDefault DefaultListed
-PROPERTIES FailNoChange AuthCurrent
+PROPERTIES FailNoChange
 CHECK_DEADLOCK FALSE
